@@ -84,15 +84,15 @@ Section Content.
   Variable U : file -> res kust.                    (* types.Kustomization.Unmarshal (strict) *)
   Variable R : kust -> string -> list line.         (* yaml.Marshal of the one-field struct *)
 
-  (* a text laid out as blocks: comment lines, then the rendering of one field *)
-  Definition layout_lines (k : kust) (L : list (list line * string)) : list line :=
-    flat_map (fun b => fst b ++ render_field R k (snd b)) L.
+  (* a text laid out as blocks: comment lines, then the rendering of at most one field *)
+  Definition layout_lines (k : kust) (L : list (list line * option string)) : list line :=
+    flat_map (fun b => fst b ++ render_opt (render_field R k) (snd b)) L.
 
-  Definition plain_layout (L : list (list line * string)) : Prop :=
+  Definition plain_layout (L : list (list line * option string)) : Prop :=
     forall b l, In b L -> In l (fst b) -> is_comment_or_blank l = true /\ plain_comment l = true.
 
-  Definition covers (k : kust) (L : list (list line * string)) : Prop :=
-    forall n, is_empty n k = false -> In n (map snd L).
+  Definition covers (k : kust) (L : list (list line * option string)) : Prop :=
+    forall n, is_empty n k = false -> In (Some n) (map snd L).
 
   (* (D) domain: no rendered field contains a blank or comment-looking line, i.e. no multi-line
      string value with such a line (the `comment-line-absorbed-into-block-scalar` finding lives
@@ -105,8 +105,9 @@ Section Content.
   Hypothesis UR : forall k L, plain_layout L -> covers k L ->
                               U (mkFile (layout_lines k L) None) = Ok (canon k).
 
+  (* every comment line of the file (the unterminated tail included) is plain *)
   Definition plain_file (f : file) : Prop :=
-    forall l, In l (f_lines f) -> is_comment_or_blank l = true -> plain_comment l = true.
+    forall l, In l (f_lines f) \/ f_tail f = Some l -> is_comment_or_blank l = true -> plain_comment l = true.
 
   (* the opaque fields present are among those marshal serialises *)
   Definition other_ok (k : kust) : Prop :=
@@ -114,7 +115,7 @@ Section Content.
 
   Lemma write_covers :
     forall f k, other_ok k -> k_imageTags k = [] ->
-      covers k (layout_of (parse_commented_fields f)).
+      covers k (layout_of (parse_commented_fields f) (trailing_kept f)).
   Proof.
     intros f k Ho Hi n Hn. apply layout_covers_order.
     destruct (is_empty_false_cases n k Hn) as [He|Hoth]; [|apply Ho; exact Hoth].
@@ -126,19 +127,22 @@ Section Content.
   Qed.
 
   Lemma write_plain_layout :
-    forall f, plain_file f -> plain_layout (layout_of (parse_commented_fields f)).
+    forall f, plain_file f -> plain_layout (layout_of (parse_commented_fields f) (trailing_kept f)).
   Proof.
     intros f Hp b l Hb Hl. unfold layout_of in Hb. apply in_app_or in Hb. destruct Hb as [Hb|Hb].
     - apply in_map_iff in Hb. destruct Hb as [c [Ec Hc]]. subst b. simpl in Hl.
       assert (In l (kept_comments (parse_commented_fields f))) as Hk.
       { unfold kept_comments. apply in_flat_map. exists c. split; assumption. }
       pose proof (kept_are_comments f l Hk) as C. split; [exact C|].
-      apply Hp; [apply kept_in_file; exact Hk|exact C].
-    - apply in_map_iff in Hb. destruct Hb as [n [En _]]. subst b. destruct Hl.
+      apply Hp; [left; apply kept_in_file; exact Hk|exact C].
+    - apply in_app_or in Hb. destruct Hb as [Hb|Hb].
+      + destruct Hb as [Hb|[]]. subst b. cbn [fst] in Hl.
+        destruct (trailing_are_comments f l Hl) as [C Hin]. split; [exact C|]. apply Hp; assumption.
+      + apply in_map_iff in Hb. destruct Hb as [n [En _]]. subst b. destruct Hl.
   Qed.
 
   Lemma write_file_lines :
-    forall f k, f_lines (write_file R f k) = layout_lines k (layout_of (parse_commented_fields f)).
+    forall f k, f_lines (write_file R f k) = layout_lines k (layout_of (parse_commented_fields f) (trailing_kept f)).
   Proof. intros. unfold write_file. cbn [f_lines]. apply marshal_as_layout. Qed.
 
   (* reading back what a command wrote *)
@@ -147,7 +151,7 @@ Section Content.
       read_typed U (write_file R f k) = Ok (fix_kustomization (canon k)).
   Proof.
     intros f k Hp Ho Hi. unfold read_typed.
-    assert (write_file R f k = mkFile (layout_lines k (layout_of (parse_commented_fields f))) None) as E.
+    assert (write_file R f k = mkFile (layout_lines k (layout_of (parse_commented_fields f) (trailing_kept f))) None) as E.
     { unfold write_file. f_equal. apply marshal_as_layout. }
     rewrite E. rewrite UR; [reflexivity|apply write_plain_layout; exact Hp|apply write_covers; assumption].
   Qed.
@@ -155,9 +159,12 @@ Section Content.
   Lemma write_keeps_plain :
     forall f k, plain_file f -> plain_file (write_file R f k).
   Proof.
-    intros f k Hp l Hl Hc. unfold write_file in Hl. cbn [f_lines] in Hl.
+    intros f k Hp l Hl Hc. unfold write_file in Hl. cbn [f_lines f_tail] in Hl.
+    destruct Hl as [Hl|Hl]; [|discriminate Hl].
     apply marshal_lines_origin in Hl. destruct Hl as [Hl|[n Hl]].
-    - apply Hp; [apply kept_in_file; exact Hl|exact Hc].
+    - apply in_app_or in Hl. destruct Hl as [Hl|Hl].
+      + apply Hp; [left; apply kept_in_file; exact Hl|exact Hc].
+      + destruct (trailing_are_comments f l Hl) as [_ Hin]. apply Hp; assumption.
     - unfold render_field in Hl. destruct (is_empty n k); [destruct Hl|].
       rewrite (R_clean _ _ _ Hl) in Hc. discriminate Hc.
   Qed.
@@ -203,43 +210,28 @@ Section Content.
 
   (* ---------- comments ---------- *)
 
-  (* the comment lines of the rewritten file are the kept ones, in order; so the comment lines of
-     the original are those of the result followed by the forgotten ones *)
-  Theorem comments_partial :
-    forall f k, comment_lines f = comment_lines (write_file R f k) ++ forgotten_comments f.
+  (* since /repo commit f15d834: the comment lines of the rewritten file are exactly the comment
+     lines of the original (blank lines and an unterminated comment tail included), in order *)
+  Theorem comments_kept :
+    forall f k, comment_lines (write_file R f k) = comment_lines f.
   Proof.
-    intros f k. rewrite comments_kept_or_forgotten. f_equal.
+    intros f k. rewrite (comments_kept_or_forgotten f).
     unfold comment_lines at 1. unfold write_file. cbn [f_lines f_tail]. rewrite app_nil_r.
-    symmetry. apply marshal_comment_lines.
+    apply marshal_comment_lines.
     - intros c Hc. apply Forall_forall. intros l Hl. apply (kept_are_comments f).
       unfold kept_comments. apply in_flat_map. exists c. split; assumption.
+    - apply Forall_forall. intros l Hl. exact (proj1 (trailing_are_comments f l Hl)).
     - intros n l Hl. unfold render_field in Hl. destruct (is_empty n k); [destruct Hl|].
       exact (R_clean _ _ _ Hl).
   Qed.
-
-  Corollary comments_kept_unless_trailing :
-    forall f k, existsb is_field_line (f_lines f) = true -> trailing_comments f = [] ->
-      comment_lines (write_file R f k) = comment_lines f.
-  Proof.
-    intros f k Hf Ht. rewrite (comments_partial f k), (forgotten_is_trailing f Hf), Ht, app_nil_r.
-    reflexivity.
-  Qed.
 End Content.
 
-(* the full statement "every comment line of the original is still there" is false for the model
-   (and for the code): the trailing comment of the witness disappears whatever is written *)
-Local Transparent find_matched_field.
-
-Theorem comments_refuted :
-  exists f c, In c (comment_lines f) /\
-              forall (R : kust -> string -> list line) k,
-                (forall k n l, In l (R k n) -> is_comment_or_blank l = false) ->
-                ~ In c (f_lines (write_file R f k)).
-Proof.
-  exists witness_file, "# trailing comment". split; [vm_compute; left; reflexivity|].
-  intros R k Hclean Hin. unfold write_file in Hin. cbn [f_lines] in Hin.
-  apply marshal_lines_origin in Hin. destruct Hin as [Hin|[n Hin]].
-  - destruct witness_forgets as [_ E]. rewrite E in Hin. vm_compute in Hin. exact Hin.
-  - unfold render_field in Hin. destruct (is_empty n k); [destruct Hin|].
-    pose proof (Hclean _ _ _ Hin) as C. vm_compute in C. discriminate C.
-Qed.
+(* where the trailing comments go: after the original fields and before the fields a command adds
+   (so on the next read they attach to the first added field) *)
+Theorem trailing_comments_position :
+  forall (R : kust -> string -> list line) f k,
+    f_lines (write_file R f k) =
+    flat_map (fun c => cf_comment c ++ render_field R k (cf_field c)) (parse_commented_fields f) ++
+    trailing_kept f ++
+    flat_map (fun n => if has_field (parse_commented_fields f) n then [] else render_field R k n) gen_field_order.
+Proof. reflexivity. Qed.
